@@ -132,8 +132,51 @@ def run(spec, R):
     {'inproc': run_inproc, 'pool': run_pool, 'shape': run_shape}[spec['kind']](E, spec, R, rng)
 
 
+def long_then_wide(E, R, rng):
+    """a sentence of more than 50 tokens followed by sentences that need low-ranked tags of a wide tag set: settings must not
+    be carried from one sentence to the next"""
+    T = 26
+    g, hl = synth.random_grammar(rng, T + 2, T, density=0.02, max_results=1, unary_p=0.0)
+    # make sure some pairs of low-ranked tags combine into a root
+    root = T
+    for a in range(T - 4, T):
+        for b in range(T - 4, T):
+            g.binary[(a, b)] = [(root, f'z{a}_{b}', f'<z{a}_{b}>', hl)]
+    cats = [synth.SCat(i) for i in range(T)]
+    sents = []
+    n_long = rng.randint(51, 54)
+    tl, dl = synth.logsoftmax_scores(rng, n_long, T)
+    sents.append(([f'w{i}' for i in range(n_long)], tl, dl))
+    for _ in range(3):
+        tag = np.full((2, T), -30.0, dtype=np.float32)
+        order = list(range(T))
+        for i in range(2):
+            # the needed tags (T-4..T-1) are ranked 22nd..26th: every other tag scores better
+            for rank, t in enumerate(order):
+                tag[i, t] = -0.1 * (rank + 1)
+        dep = np.zeros((2, 3), dtype=np.float32)
+        sents.append((['a', 'b'], tag, dep))
+    case = {'grammar': g, 'binary': synth.BinaryFun(g), 'unary': synth.UnaryFun(g), 'head_left': hl, 'cats': cats,
+            'roots': [synth.SCat(root)], 'sentences': sents, 'family': 'softmax', 'exact': False,
+            'config': {'unary_penalty': 0.1, 'nbest': 1, 'pruning_size': 50, 'use_beta': False, 'beta': 1e-5, 'max_step': 200000, 'max_length': 250}}
+    wit = {'case': 'long-then-wide (generated by C11.long_then_wide)', 'tokens_of_first_sentence': n_long}
+    out = E.run(case)
+    R.count('history:long-then-wide')
+    if out['error'] is not None:
+        if not isinstance(out['error'], MemoryError):
+            viol(E, 'batch:misaligned', f'long-then-wide batch raised {out["error"]!r}', wit)
+        return
+    for i in (1, 2, 3):
+        alone = run_batch(E, case, order=[i])
+        if alone['error'] is None and result_key(out['results'][i]) != result_key(alone['results'][0]):
+            viol(E, 'batch:history-dependent', f'sentence {i} (needs tags ranked 23rd-26th of 26, pruning_size 50) gives a different result after a '
+                 f'{n_long}-token sentence than alone', wit)
+            return
+
+
 def run_inproc(E, spec, R, rng):
     from vlib.search import is_placeholder
+    long_then_wide(E, R, rng)
     for ci in range(spec['cases']):
         n = rng.randint(1, 12)
         case, kinds = gen_batch(rng, n)
@@ -155,6 +198,11 @@ def run_inproc(E, spec, R, rng):
         if len(res) != n:
             R.case(fp, True)
             viol(E, 'batch:misaligned', f'{len(res)} result lists for {n} sentences', wit)
+            continue
+        if any(len(lst) == 0 for lst in res):
+            R.case(fp, True)
+            viol(E, 'batch:failure-leak', f'sentence {[len(l) for l in res].index(0)} came back with an empty result list instead of a parse or '
+                 f'its failure placeholder', wit)
             continue
         cfg = case['config']
         histories = 1
@@ -264,6 +312,8 @@ def run_pool(E, spec, R, rng):
         elif ci == 1:
             forced = rng.choice((2, 3, 5))
             n = forced * rng.randint(5, 10)
+        elif ci == 2:
+            forced, n = rng.choice((8, 16)), rng.randint(2, 6)      # more worker processes than sentences
         case, kinds = gen_batch(rng, n, hostile=False)
         delays = [rng.choice((0.0, 0.05, 0.3, 0.8)) for _ in range(8)]
         case['binary'] = DelayedBinary(case['grammar'], None)
@@ -273,7 +323,7 @@ def run_pool(E, spec, R, rng):
             R.violation('batch:misaligned', f'in-process run failed: {ref["error"]!r}', wit)
             continue
         procs = forced or rng.choice((1, 2, 3, 5, 8))
-        chunk = rng.choice((1, 2, 7, 20))
+        chunk = rng.choice((1, 2, 7, 20)) if n > 20 else 1
         case['binary'] = DelayedBinary(case['grammar'], delays)
         DelayedBinary._slept.clear()
         t0 = time.time()
